@@ -55,6 +55,9 @@ struct ReadPlan {
     chunks: Vec<usize>,
     // fail with an I/O error once this many bytes have been delivered
     fault_at: Option<usize>,
+    // the kind of that error (default: Other) and whether it happens once (the next read succeeds) or on every read
+    fault_kind: Option<io::ErrorKind>,
+    fault_once: bool,
 }
 
 #[derive(Clone, Default)]
@@ -72,13 +75,15 @@ struct MemReader {
     pos: usize,
     plan: ReadPlan,
     nread: usize,
+    faulted: bool,
 }
 
 impl Read for MemReader {
     fn read(&mut self, buf: &mut [u8]) -> io::Result<usize> {
         if let Some(f) = self.plan.fault_at {
-            if self.pos >= f {
-                return Err(io::Error::new(io::ErrorKind::Other, "injected read fault"));
+            if self.pos >= f && !(self.plan.fault_once && self.faulted) {
+                self.faulted = true;
+                return Err(io::Error::new(self.plan.fault_kind.unwrap_or(io::ErrorKind::Other), "injected read fault"));
             }
         }
         let mut n = buf.len().min(self.data.len() - self.pos);
@@ -87,7 +92,9 @@ impl Read for MemReader {
             n = n.min(c.max(1));
         }
         if let Some(f) = self.plan.fault_at {
-            n = n.min(f - self.pos);
+            if self.pos < f {
+                n = n.min(f - self.pos);
+            }
         }
         self.nread += 1;
         buf[..n].copy_from_slice(&self.data[self.pos..self.pos + n]);
@@ -180,6 +187,7 @@ impl FileSystem for MemFs {
                     .cloned()
                     .unwrap_or_else(|| self.default_plan.clone()),
                 nread: 0,
+                faulted: false,
             }),
             None => Err(io::Error::new(io::ErrorKind::NotFound, "no such file")),
         }
@@ -231,6 +239,15 @@ fn build_fs(files_field: &str, opts: &BTreeMap<String, String>) -> MemFs {
         let (p, o) = f.rsplit_once(':').unwrap();
         let mut plan = default_plan.clone();
         plan.fault_at = Some(o.parse().unwrap());
+        plan.fault_kind = opts.get("faultkind").map(|k| match k.as_str() {
+            "interrupted" => io::ErrorKind::Interrupted,
+            "wouldblock" => io::ErrorKind::WouldBlock,
+            "timedout" => io::ErrorKind::TimedOut,
+            "eof" => io::ErrorKind::UnexpectedEof,
+            "invalid" => io::ErrorKind::InvalidData,
+            _ => io::ErrorKind::Other,
+        });
+        plan.fault_once = opts.get("faultonce").is_some();
         plans.insert(PathBuf::from(p), plan);
     }
     let mut write_fail = BTreeSet::new();
@@ -503,7 +520,7 @@ fn mode_chars(f: &[&str]) -> String {
     if f.len() > 2 && !f[2].is_empty() {
         plan.fault_at = Some(f[2].parse().unwrap());
     }
-    let reader = MemReader { data, pos: 0, plan, nread: 0 };
+    let reader = MemReader { data, pos: 0, plan, nread: 0, faulted: false };
     let mut out: Vec<String> = Vec::new();
     let mut cr = CharReader::new(reader);
     let mut guard = 0usize;
@@ -568,7 +585,7 @@ macro_rules! run_lex {
         let interner = Rc::new(RefCell::new(StrInterner::new()));
         let mut paths = PathInterner::new();
         let pathref = paths.intern("/f.asm");
-        let reader = MemReader { data: $data, pos: 0, plan: $plan, nread: 0 };
+        let reader = MemReader { data: $data, pos: 0, plan: $plan, nread: 0, faulted: false };
         let lexer: Lexer<MemReader, $tokens> = Lexer::new(interner.clone(), None, pathref, reader);
         let mut out: Vec<String> = Vec::new();
         for r in lexer {
